@@ -967,6 +967,14 @@ class Interp:
                     dv.on_drop(self)
                 elif dv is not None and getattr(path, 'live_oneshots', False):
                     _drop_responders(path, dv)
+                if isinstance(dv, Agg) and dv.name:
+                    # a type of the crate with its own `impl Drop`: run it (the fields' own drops follow in the MIR's drop glue,
+                    # which the contract models do not need)
+                    dfn = [f for f in self.index.methods.get((dv.name, 'Drop', 'drop'), [])]
+                    if dfn:
+                        place_loc = self.place_loc(frame, term.args[0]) if hasattr(self, 'place_loc') else None
+                        if place_loc is not None:
+                            yield from self.call_fn(dfn[0], [Ref(place_loc, True)])
                 bb = term.targets['return']
             elif k == 'assert':
                 op, neg, msg = term.args
